@@ -60,7 +60,9 @@ CONFIG = dict(
              "(theorem no_unstranded_entries) and checks the shapes of Strand's selects, processStrand and Shutdown's order. Tie H: "
              "concurrent real workloads over loopback (connect, disconnect, send, broadcast, queries, incoming peers, shutdown at random "
              "moments), events taken from the code's own log lines (strand.Debug), callbacks and API returns with goroutine identity; "
-             "the driver rejects a trace that is not a run of the model.",
+             "the driver rejects a trace that is not a run of the model; in addition, workloads in which one strand operation runs for "
+             "1.3-1.7 s while 3-12 pool calls and two incoming connections' registrations are queued behind it for more than a second "
+             "when Shutdown is called: every queued call must return and Shutdown must return.",
         note="NOT claimed by the proof: absence of Go-memory-model data races in general, variables captured by request closures, "
              "per-connection goroutines/sockets, blocking in Close, termination under fairness. The harness is built with -race "
              "(needs cgo + a C compiler; if that build fails the check falls back to a plain build and says so in the evidence: "
